@@ -229,7 +229,11 @@ struct optional {
     // clang-format on
     constexpr auto operator=(U&& value) -> optional&
     {
-        emplace(etl::forward<U>(value));
+        if (has_value()) {
+            **this = etl::forward<U>(value);
+        } else {
+            emplace(etl::forward<U>(value));
+        }
         return *this;
     }
 
